@@ -55,11 +55,11 @@ def renderArgs : TyList → List Tok
   | TyList.nil => []
   | TyList.cons t TyList.nil => render t
   | TyList.cons t ts => render t ++ [Tok.comma] ++ renderArgs ts
-/-- tuple fields: a 1-tuple keeps its trailing comma -/
+/-- tuple fields: only a 1-tuple has a trailing comma -/
 def renderTuple : TyList → List Tok
   | TyList.nil => []
   | TyList.cons t TyList.nil => render t ++ [Tok.comma]
-  | TyList.cons t ts => render t ++ [Tok.comma] ++ renderTuple ts
+  | TyList.cons t ts => render t ++ [Tok.comma] ++ renderArgs ts
 def renderRet : Ty → List Tok
   | Ty.tuple TyList.nil => []                -- `-> ()` is not printed
   | t => Tok.arrow :: render t
